@@ -97,4 +97,38 @@ CHECKS = {
         "note": STD_NOTE + " Trusted in addition: the translator, the frozen reference tables (47 exported names have no reference and are not covered; 4 names on which glibc and LLVM disagree are excluded), the repr(C) layout model (validated against rustc each run). to_string fallback text is checked on the implementation only (format! is not modelled).",
         "technique": "Coq proof over tables regenerated from the source by a translator (finite forallb by vm_compute + lifting lemmas), translator validated against rustc",
     },
+    "C03": {
+        "text": "Coq theorems about the slice-parser model in which every slice handed out IS an absolute (start,end) range of the caller's "
+                "buffer: C03_section_nobits / _unfit / _plain / _compressed (empty for NOBITS; error when [sh_offset, sh_offset+sh_size) "
+                "does not fit; exactly that range otherwise; with SHF_COMPRESSED the C02 decoding of the compression header and the "
+                "remainder, error when shorter than the header), C03_segment_data ([p_offset, p_offset+p_filesz) or error; p_memsz never "
+                "enters), C03_strtab_entry and C03_note_ranges (typed views hand out sub-ranges of their own range holding the file's "
+                "bytes). Tie: the harness prints every returned borrow as pointer range relative to the input; generated objects plus "
+                "caller-made headers at EOF-1/EOF/EOF+1, overflow, NOBITS with absurd ranges, compressed sizes around the header size; "
+                "independent python oracle for the designated range.",
+        "note": STD_NOTE + " That the returned slices borrow from (are not copies of) the input is observed by the harness through pointer arithmetic; in the model it holds by construction (ranges, not bytes, are returned).",
+        "technique": "Coq proof (case analysis + arithmetic) + extraction-based differential correspondence with pointer-range observation",
+    },
+    "C05": {
+        "text": "Coq theorems: C05_section_headers / C05_program_headers (find_shdrs / find_phdrs return Ok r exactly when the declarative "
+                "table_spec gives r: offset 0 = absent; else declared entry size = the class's structure size and [off, off+size*n) inside the "
+                "file, n = e_shnum or shdr[0].sh_size when 0 / e_phnum or shdr[0].sh_info when 0xffff; otherwise not Ok), C05_entry_count "
+                "(the located table has exactly n entries), C05_open (minimal_parse = Ok eb IFF open_spec: ident accepted, header = C02 "
+                "decoding, both tables per the rule), C05_strtab (e_shstrndx = 0 / index / SHN_XINDEX -> shdr[0].sh_link), C05_entsize, "
+                "C05_validate_entsize. Tie: boundary values in every table-locating field of the ELF header and shdr[0], wrong entry "
+                "sizes, extended numbering incl. files with > 0xff00 sections, tables touching EOF; independent python reading of the header.",
+        "note": STD_NOTE + " The stream parser's side of this property (vectors of exactly n decoded headers) is covered by the stream model of C07.",
+        "technique": "Coq proof (iff between the monadic code and a declarative spec) + extraction-based differential correspondence",
+    },
+    "C20": {
+        "text": "Coq theorems: C20_common_symtabs / _dynamic / _hashes (one-pass find_common_data leaves in each field the entry of the LAST "
+                "section of the kind; with at most one section of the kind this is what symbol_table / dynamic_symbol_table / dynamic "
+                "return, and the hash tables are `new` of the hash sections' ranges), C20_by_name + C20_name_is (the FIRST section in table "
+                "order whose name is valid UTF-8 and equals the query; None otherwise), C20_typed_section / C20_typed_views (refused when "
+                "the type differs, else exactly the range of section_data / segment_data), C20_dynamic_paths. Tie + metamorphic oracles on "
+                "the implementation's own outputs: common == targeted, by-name == python scan of printed headers, typed views vs raw data; "
+                "section tables in random order, duplicate kinds, prefix/suffix/duplicate/non-UTF-8/out-of-table names.",
+        "note": STD_NOTE + " from_utf8 is an environment model (C15).",
+        "technique": "Coq proof (induction over the section list, first/last-match lemmas) + correspondence + metamorphic oracles on implementation outputs",
+    },
 }
